@@ -86,3 +86,29 @@ def band_limit_candidates(smoothed, ratio, ulps=8):
             break
     peaks = [i for i, s in enumerate(smoothed) if s == m]
     return first_ok, last_ok, peaks
+
+
+def window_sensitivity(f, fc, b):
+    """|dw/dz| * dz: first-order bound of the rounding error of the window itself, z = b*log10(f/fc) being known only to
+    dz = 4 eps (|z| + b) (one division, one log10, one product). Used to scale a LOCAL tolerance: next to a zero of
+    sin(z) the relative error of w is unbounded although its absolute error is tiny."""
+    if f == fc:
+        return 0.0
+    z = b * math.log10(f / fc)
+    if z == 0.0:
+        return 0.0
+    s = math.sin(z) / z
+    dwdz = 4.0 * s ** 3 * (z * math.cos(z) - math.sin(z)) / (z * z)
+    return abs(dwdz) * 4 * 2.220446049250313e-16 * (abs(z) + b)
+
+
+def smooth_error_bound(columns, sens_columns, amps):
+    """Per target: first-order bound of |computed - exact| of the weighted mean due to the window's own rounding,
+    sum_i |A_i| s_i / W + mean * sum_i s_i / W (numerator and normalisation)."""
+    mags = [abs(a) for a in amps]
+    out = []
+    for w, s in zip(columns, sens_columns):
+        big_w = math.fsum(w)
+        mean = math.fsum(wi * m for wi, m in zip(w, mags)) / big_w
+        out.append((math.fsum(si * m for si, m in zip(s, mags)) + mean * math.fsum(s)) / big_w)
+    return out
